@@ -214,7 +214,11 @@ static void sp_setup(int outer_flags) {
     sp_outer.ra.max = 0; sp_outer.ua.max = 0;
     sp_c.scope = &sp_outer;
     for (int f = 0; f < SP_NF; f++) {
+#ifdef SP_KFIX
+        sp_k[f] = SP_KFIX;
+#else
         sp_k[f] = nd_int(); __CPROVER_assume(sp_k[f] >= 0 && sp_k[f] <= 2);
+#endif
         sp_isconst[f] = nd_int() & 1;
         sp_slot[f] = SP_SLOT0 + f; sp_slotflags[f] = 0; sp_makes_closure[f] = 0;
         if (sp_isconst[f]) sp_choose_const(f);
